@@ -1813,8 +1813,19 @@ class Comparator(BinaryOperator):
             and is_iterable(left_value.value)
             and is_iterable(right_value.value)
         ):
-            left_value = HashedValue(make_set(left_value.value))
-            right_value = HashedValue(make_set(right_value.value))
+            try:
+                left_value = HashedValue(make_set(left_value.value))
+                right_value = HashedValue(make_set(right_value.value))
+            except TypeError:
+                # elements that cannot be hashed (a plain dataclass with a generated __eq__): the same comparison of
+                # the two collections as sets, element by element
+                same_elements = _have_the_same_elements(
+                    make_list(left_value.value), make_list(right_value.value)
+                )
+                res = same_elements if self.operation is operator.eq else not same_elements
+                self._is_false_ = not res
+                operand_values[self._id_] = HashedValue(res)
+                return res
         res = self.operation(left_value.value, right_value.value)
         self._is_false_ = not res
         operand_values[self._id_] = HashedValue(res)
@@ -2421,6 +2432,19 @@ def call_with_merged_arguments(
         if by_position and parameter.name in kwargs:
             args.append(kwargs.pop(parameter.name))
     return function(*args, *variadic, **kwargs)
+
+
+def _have_the_same_elements(left: List[Any], right: List[Any]) -> bool:
+    """
+    :param left: The elements of a collection.
+    :param right: The elements of another collection.
+    :return: True if the two collections are equal as sets; the elements need not be hashable.
+    """
+    return all(
+        any(element is other or element == other for other in right) for element in left
+    ) and all(
+        any(element is other or element == other for other in left) for element in right
+    )
 
 
 def _any_of_the_kwargs_is_a_variable(bindings: Dict[str, Any]) -> bool:
